@@ -191,6 +191,13 @@ func check(c Case) (res vh.Result) {
 		if pn != nil || err0 != nil {
 			continue
 		}
+		if lang == "zsh" && vh.Excluded("C09-zsh-arith-dot") && strings.Contains(c.Src, "((") && strings.Contains(c.Src, ".") {
+			// zsh: a "." inside arithmetic ends the expansion early and the
+			// rest is dropped, so an unclosed "$((n ." counts as valid
+			// (finding C09-zsh-arith-dot); with RecoverErrors it is rejected
+			res.Classes = append(res.Classes, "excluded:C09-zsh-arith-dot")
+			continue
+		}
 		f1, err1, pn := parse(lang, syntax.RecoverErrors(c.Recover))
 		if pn != nil {
 			return vh.Fail("parsing as %s with RecoverErrors(%d) panicked: %v", lang, c.Recover, pn)
